@@ -727,6 +727,11 @@ def run(ctx, rep):
             if tgt is None:
                 continue
             d = A.dotted(tgt) or ""
+            if isinstance(n, ast.AugAssign) and isinstance(n.target, ast.Subscript) and \
+                    d.split(".")[-1] in ("DEFAULT_CONFIG", "_config", "config"):
+                # X._config[key] op= ...: for a mutable value (the safe_attrs set) the operator works in place on the object that
+                # every connection shares through the shallow copy
+                shared.append((n, "augmented assignment on the stored value"))
             if d.split(".")[-1] == "DEFAULT_CONFIG":
                 writers.append((n, how))
             # value inside a config dict: X["safe_attrs"].add(...) / X._config["safe_attrs"] |= ...
